@@ -204,7 +204,23 @@ func NewWorld(r *Rng, o WorldOpts) *GenWorld {
 		imps := []ModuleRef{}
 		for n, j := range edges[i] {
 			alias := fmt.Sprintf("m%d", j)
-			imps = append(imps, ModuleRef{Alias: alias, Name: alias, Path: relImport(names[i], names[j]), Funcs: pub[j]})
+			ip := relImport(names[i], names[j])
+			if r.Chance(12) {
+				// other spellings of the same import path
+				switch r.Intn(3) {
+				case 0:
+					ip = "./" + ip
+				case 1:
+					ip = "./././" + ip
+				default:
+					if d := path.Dir(ip); d != "." && !strings.HasPrefix(ip, "..") {
+						ip = d + "/../" + ip
+					} else {
+						ip = "./" + ip
+					}
+				}
+			}
+			imps = append(imps, ModuleRef{Alias: alias, Name: alias, Path: ip, Funcs: pub[j]})
 			if twoAlias && n == 0 {
 				imps = append(imps, ModuleRef{Alias: alias + "b", Name: alias + "b", Path: relImport(names[i], names[j]), Funcs: pub[j]})
 			}
@@ -279,7 +295,8 @@ func NewWorld(r *Rng, o WorldOpts) *GenWorld {
 		name := fmt.Sprintf("%sdecoy%d.tsh", r.Pick(dirs[:3]), d)
 		if r.Chance(35) {
 			// confusable names: a stale copy next to a real file, a name close to a std library
-			name = r.Pick([]string{"h1.tsh.bak", "h1.tsh~", "H1.TSH", "main.tsh.orig", "string.tsh", "std/strings.tsh", "lib/strings", "os.tsh.txt", ".h1.tsh.swp"})
+			name = r.Pick([]string{"h1.tsh.bak", "h1.tsh~", "H1.TSH", "main.tsh.orig", "string.tsh", "std/strings.tsh", "lib/strings", "os.tsh.txt", ".h1.tsh.swp",
+				"strings.tsh", "os.tsh", "strings.tsh", "lib/strings.tsh", "h1", "main"})
 			if w.Get(name) != nil {
 				name = fmt.Sprintf("decoy%d.tsh", d)
 			}
@@ -287,6 +304,24 @@ func NewWorld(r *Rng, o WorldOpts) *GenWorld {
 		src, _ := GenProgram(r.Sub(), RandomFeat(r), nil, fmt.Sprintf("_d%d_", d))
 		w.Files = append(w.Files, WFile{name, []byte(src)})
 		w.Decoys = append(w.Decoys, name)
+	}
+	// shadowing candidates: next to a file that imports a std library, a local file whose
+	// name is that of the library (with and without extension). The unchanged resolution
+	// rule decides which one is meant; no environment change may flip that decision.
+	for i := range names {
+		for _, lib := range stdOf[i] {
+			if r.Chance(30) {
+				d := path.Dir(names[i])
+				n := lib + r.Pick([]string{".tsh", ".tsh", "", ".TSH"})
+				if d != "." {
+					n = d + "/" + n
+				}
+				if w.Get(n) == nil {
+					w.Files = append(w.Files, WFile{n, []byte("func Contains(a string, b string) bool {\n\treturn true\n}\nfunc Shell() string {\n\treturn \"local\"\n}\n")})
+					w.Decoys = append(w.Decoys, n)
+				}
+			}
+		}
 	}
 	sort.Slice(w.Files, func(i, j int) bool { return w.Files[i].Rel < w.Files[j].Rel })
 	sort.Strings(w.Closure)
